@@ -248,6 +248,20 @@ theorem rollback_unlink_replace_counterexample :
       recover s = .usable (.cmdlineOptions .old) ∧ acceptable .reconfigure true (recover s) = false := by
   decide
 
+/-- a writer that always rewrites its file in place heals a torn copy on the next run, whatever the kill left -/
+theorem always_rewrite_repairs (p : Path) (c : α) (fs : FS α) :
+    (run fs (inPlaceWrite p c)) p ≠ .torn :=
+  repairs_sound AFS.top p (inPlaceWrite p c) (by simp [repairs, absRun, absStep, AFS.set, AFS.top, inPlaceWrite]) fs
+    (AFS.top_describes fs)
+
+/-- a writer that skips the file when it already exists ("the name identifies the content") does not: the torn
+    copy a kill left stays torn through every later run -/
+theorem skip_if_exists_counterexample :
+    ∃ s ∈ crashStates (fun _ => FileSt.absent) (inPlaceWrite 50 Gen.new),
+      s 50 = .torn ∧ (run s ([] : List (Effect Gen))) 50 = .torn ∧
+      repairs AFS.top 50 ([] : List (Effect Gen)) = false := by
+  decide
+
 /-! ### per-run obligations over the traces recorded from the real commands -/
 
 /-- the window in which the current code does not recover (the `--wipe` findings above) -/
@@ -365,9 +379,45 @@ theorem recorded_temps_ignore_leftovers :
   intro sc hsc st hle
   exact replacesFresh_mono sc.trace sc.stale0 st hle (recorded_temps_truncated sc hsc)
 
+/-! #### every file the command writes -/
+
+/-- a written file is fine if no meson command reads it, or it is a temp file (renamed away; leftovers are covered by
+    `recorded_temps_truncated`), or no kill can tear it, or the follow-up run rewrites it whatever it finds -/
+def writesRecoverable (sc : Scenario) : Bool :=
+  (writeSet sc.trace).all (fun p =>
+    sc.ignored.contains p ||
+    (replaceSources sc.trace).contains p ||
+    (neverTornCheck p sc.fs0 sc.trace && !(sc.fs0 p).isTorn) ||
+    repairs sc.known p sc.recovery)
+
+theorem recorded_writes_recoverable :
+    ∀ sc ∈ CrashTraces.all, writesRecoverable sc = true := by
+  decide +kernel
+
+/-- every state file a recorded command creates or writes is, at every crash point, either not torn or made whole
+    again by the recorded follow-up run — from whatever the kill left, not just from the recorded directory -/
+theorem recorded_written_files_repaired :
+    ∀ sc ∈ CrashTraces.all, ∀ p ∈ writeSet sc.trace, p ∉ sc.ignored → p ∉ replaceSources sc.trace →
+      ∀ s ∈ crashStates sc.fs0 sc.trace, s p ≠ .torn ∨ (run s sc.recovery) p ≠ .torn := by
+  intro sc hsc p hp hign htmp s hs
+  have h := recorded_writes_recoverable sc hsc
+  simp only [writesRecoverable, List.all_eq_true] at h
+  have hp' := h p hp
+  simp only [Bool.or_eq_true, Bool.and_eq_true, Bool.not_eq_true'] at hp'
+  rcases hp' with ((hc | hc) | ⟨hn, h0⟩) | hr
+  · exact absurd (List.contains_iff_mem.mp hc) hign
+  · exact absurd (List.contains_iff_mem.mp hc) htmp
+  · exact Or.inl (neverTornCheck_sound p sc.fs0 sc.trace hn ((isTorn_false_iff _).mp h0) s hs)
+  · exact Or.inr (repairs_sound sc.known p sc.recovery hr s (sc.known_describes s hs))
+
+/-- the follow-up run too renames only files it opened truncating, whatever it finds -/
+theorem recorded_recovery_temps_truncated :
+    ∀ sc ∈ CrashTraces.all, replacesFresh (fun _ => true) sc.recovery = true := by
+  decide +kernel
+
 /-! ### non-vacuity -/
 
-example : CrashTraces.all.length = 41 := by decide
+example : CrashTraces.all.length = 46 := by decide
 example : (crashStates CrashTraces.sc_configure_h2_ninja.fs0 CrashTraces.sc_configure_h2_ninja.trace).length > 10 := by
   decide +kernel
 /-- the partial theorem's hypotheses hold at some crash point where a state file is mid-update -/
